@@ -48,6 +48,14 @@ func (ctx *parseContext) expandImports(node Node, expansionDepth int) (Node, err
 				return node, NodeErr(child, "hit import expansion limit")
 			}
 
+			// Depth limit does not help against snippets and files that
+			// import themselves more than once, amount of directives
+			// doubles on each pass then.
+			*ctx.importsLeft--
+			if *ctx.importsLeft < 0 {
+				return node, NodeErr(child, "hit import expansion limit")
+			}
+
 			containsImports = true
 			if len(child.Args) != 1 {
 				return node, ctx.Err("import directive requires exactly 1 argument")
@@ -97,7 +105,7 @@ func (ctx *parseContext) resolveImport(node Node, name string, expansionDepth in
 			return nil, err
 		}
 	}
-	nodes, snips, macros, err := readTree(src, file, expansionDepth+1)
+	nodes, snips, macros, err := readTree(src, file, expansionDepth+1, ctx.importsLeft)
 	if err != nil {
 		return nodes, err
 	}
